@@ -25,6 +25,25 @@ class RecStream(SchedStream):
         return super().read(n)
 
 
+class ReadProbe:
+    """stands in for the buffered body: records how many bytes each read() handed to the caller"""
+
+    def __init__(self, real):
+        self.real, self.returned, self.asked = real, [], []
+
+    def seek(self, *a):
+        return self.real.seek(*a)
+
+    def read(self, n=-1):
+        d = self.real.read(n)
+        self.asked.append(n)
+        self.returned.append(len(d))
+        return d
+
+    def __getattr__(self, name):
+        return getattr(self.real, name)
+
+
 def modules():
     from ombott.request_pkg import body_mixin, errors
     return body_mixin, errors
@@ -129,6 +148,15 @@ def get_app(map_key, memfile, maxbody):
                 outs.append(f's:{hb(rq._get_body_string())}')
             elif op == 'C':
                 outs.append(f'c:{rq.content_length}')
+            elif op == 'M':      # how much of the buffered copy does _get_body_string pull into memory?
+                real = rq.body
+                probe = ReadProbe(real)
+                rq.environ['ombott.request.body'] = probe
+                info['probe'] = probe
+                try:
+                    outs.append(f'm:{len(rq._get_body_string())}')
+                finally:
+                    rq.environ['ombott.request.body'] = real
             elif op == 'F':      # forms (urlencoded / multipart); not modelled here, status only
                 f = rq.forms
                 info['forms'] = {k: f[k] for k in f}
